@@ -59,9 +59,11 @@ struct writer
 struct reader
 {
 	tcp::socket* sock; stream* st; int cap; int style; bool stop = false;
+	int split = 0;           // > 0: read into two buffers, the first of `split` bytes (scatter read)
 	unsigned char buf[64];
 	bool pending = false;
 	int limit = -1;          // stop reading after this many successful reads (-1: never)
+	bool move_after_first = false; tcp::socket* moved_to = nullptr;
 };
 
 void write_more(writer& w);
@@ -131,6 +133,7 @@ void on_read(reader& r, error_code const& ec, std::size_t n)
 		vp_assert(r.buf[i] == st.data[st.received + i], 15);
 	st.received += int(n);
 	if (r.limit > 0 && --r.limit == 0) { r.stop = true; return; }
+	if (r.move_after_first && !r.moved_to) { r.moved_to = new tcp::socket(std::move(*r.sock)); r.sock = r.moved_to; }
 	read_more(r);
 }
 void read_more(reader& r)
@@ -138,15 +141,18 @@ void read_more(reader& r)
 	if (r.stop) return;
 	reader* rp = &r;
 	r.pending = true;
+	std::vector<asio::mutable_buffer> bufs;
+	if (r.split > 0 && r.split < r.cap) { bufs.push_back(asio::buffer(r.buf, std::size_t(r.split))); bufs.push_back(asio::buffer(r.buf + r.split, std::size_t(r.cap - r.split))); }
+	else bufs.push_back(asio::buffer(r.buf, std::size_t(r.cap)));
 	if (r.style == 0)
-		r.sock->async_read_some(asio::buffer(r.buf, std::size_t(r.cap)), [rp](error_code const& ec, std::size_t n) { on_read(*rp, ec, n); });
+		r.sock->async_read_some(bufs, [rp](error_code const& ec, std::size_t n) { on_read(*rp, ec, n); });
 	else
-		r.sock->async_wait(tcp::socket::wait_read, [rp](error_code const& ec)
+		r.sock->async_wait(tcp::socket::wait_read, [rp, bufs](error_code const& ec)
 		{
 			if (ecv(ec) == E_EOF) { on_read(*rp, ec, 0); return; }      // end-of-file reported through the wait
 			if (ec) { rp->pending = false; rp->stop = true; vp_log(4, ecv(ec), 0, 0); return; }
 			error_code e2;
-			std::size_t const n = rp->sock->read_some(asio::buffer(rp->buf, std::size_t(rp->cap)), e2);
+			std::size_t const n = rp->sock->read_some(bufs, e2);
 			if (ecv(e2) == E_WOULD_BLOCK) { rp->pending = false; read_more(*rp); return; }
 			on_read(*rp, e2, n);
 		});
@@ -224,16 +230,27 @@ extern "C" int harness_main()
 	w.close_when_done = REUSE ? true : vp_choose(2) == 1;
 	w.close_after = -1;
 	r.sock = &rsock; r.st = &st;
-	{ int const caps[3] = {1, 2, 64}; r.cap = caps[vp_choose(3)]; }
+	{ int const caps[5][2] = {{1, 0}, {2, 0}, {64, 0}, {LEN, 2}, {LEN + 8, LEN}}; int const ci = vp_choose(5); r.cap = caps[ci][0]; r.split = caps[ci][1]; }
 	r.style = vp_choose(2);
+	bool const late_reader = !REUSE && vp_choose(2) == 1;
 	if (REUSE) r.limit = vp_choose(2) == 0 ? 1 : -1;
 
+	// C12 / C20: moving an established socket that has no operation outstanding keeps the connection intact
+#ifdef MOVES
+	int const moved = vp_choose(4);     // 0: nobody, 1: the connector, 2: the accepted socket, 3: the reader after its first read
+	if (moved == 3) r.move_after_first = true;
+#else
+	int const moved = 0;
+#endif
+	tcp::socket* cli_moved = nullptr; tcp::socket* srv_moved = nullptr;
 	int connected = -1, accepted = -1;
 	acc.async_accept(srv, [&](error_code const& e)
 	{
 		accepted = ecv(e);
 		if (e) return;
-		srv.non_blocking(true);
+		if (moved == 2) { srv_moved = new tcp::socket(std::move(srv)); (DIR == 0 ? r.sock : w.sock) = srv_moved; }
+		(moved == 2 ? *srv_moved : srv).non_blocking(true);
+		if (moved == 2) { if (DIR == 1) write_more(w); else if (!late_reader) read_more(r); return; }
 		if (DIR == 1) write_more(w); else read_more(r);
 	});
 	cli.open(tcp::v4(), ec);
@@ -241,10 +258,12 @@ extern "C" int harness_main()
 	{
 		connected = ecv(e);
 		if (e) return;
+		if (moved == 1) { cli_moved = new tcp::socket(std::move(cli)); (DIR == 0 ? w.sock : r.sock) = cli_moved; cli_moved->non_blocking(true); if (DIR == 0) write_more(w); else if (!late_reader) read_more(r); return; }
 		cli.non_blocking(true);
-		if (DIR == 0) write_more(w); else read_more(r);
+		if (DIR == 0) write_more(w); else if (!late_reader) read_more(r);
 	});
 	s.run();
+	if (late_reader && connected == 0 && accepted == 0) { read_more(r); s.run(); }
 	// a held-back segment is released at quiescence (reordering, not loss), then the run continues
 	for (int i = 0; i < DROPS + 1 && drp && drp->flush(); ++i) s.run();
 
@@ -263,8 +282,8 @@ extern "C" int harness_main()
 	// no pending read with data queued, no blocked writer with nothing in flight, nothing waits unsent
 	vp_assert(st.written == st.len || st.write_errors > 0, 30);
 	vp_assert(st.received == st.written, 31);
-	vp_assert(!(r.pending && !rsock.m_incoming_queue.empty()), 32);
-	vp_assert(wsock.m_outgoing_packets.empty(), 33);
+	vp_assert(!(r.pending && !r.sock->m_incoming_queue.empty()), 32);
+	vp_assert(w.sock->m_outgoing_packets.empty(), 33);
 	if (st.closed_by_writer) vp_assert(st.eof_seen, 34);
 #else
 	if (lossless && r.limit < 0)
@@ -282,9 +301,9 @@ extern "C" int harness_main()
 	{
 		r.stop = true;
 		tcp::socket cli2(cios);
-		stream st2; st2.len = 2; st2.data[0] = vp_sym_byte(); st2.data[1] = vp_sym_byte();
+		stream st2; st2.len = 5; for (int i = 0; i < 5; ++i) st2.data[i] = vp_sym_byte();
 		writer w2; reader r2;
-		w2.sock = &cli2; w2.st = &st2; w2.chunk = 2; w2.layout = 0; w2.close_when_done = false; w2.close_after = -1;
+		w2.sock = &cli2; w2.st = &st2; w2.chunk = 5; w2.layout = 0; w2.close_when_done = false; w2.close_after = -1;
 		r2.sock = &srv; r2.st = &st2; r2.cap = 64; r2.style = 0;
 		int connected2 = -1, accepted2 = -1;
 		acc.async_accept(srv, [&](error_code const& e) { accepted2 = ecv(e); if (!e) { srv.non_blocking(true); read_more(r2); } });
@@ -292,7 +311,7 @@ extern "C" int harness_main()
 		cli2.async_connect(tcp::endpoint(SA, 7000), [&](error_code const& e) { connected2 = ecv(e); if (!e) { cli2.non_blocking(true); write_more(w2); } });
 		s.run();
 		vp_assert((connected2 == 0) & (accepted2 == 0), 40);
-		vp_assert(st2.received == 2, 41);
+		vp_assert(st2.received == 5, 41);
 		st2.closed_by_writer = true; st2.written_at_close = st2.written;
 		cli2.close(ec);
 		s.run();
@@ -301,7 +320,12 @@ extern "C" int harness_main()
 	}
 #endif
 	cli.close(ec); srv.close(ec); acc.close(ec);
+	if (cli_moved) cli_moved->close(ec);
+	if (srv_moved) srv_moved->close(ec);
 	s.run();
+	if (r.moved_to) r.moved_to->close(ec);
+	s.run();
+	delete cli_moved; delete srv_moved; delete r.moved_to;
 	vp_reach(1);
 	if (st.received == st.len) vp_reach(2);
 	if (drp && (drp->dropped > 0 || drp->reordered > 0)) vp_reach(3);
